@@ -1748,16 +1748,18 @@ Section Struct.
     rewrite (dict_set_fresh _ _ _ H1). rewrite IH; [rewrite <- app_assoc; reflexivity | exact Hh | rewrite map_app; exact H2].
   Qed.
 
-  Theorem src_extra_keys_eq (R : recs) cn (c : classdef) kv ku (flag : bool) :
+  Definition extra_keys (c : classdef) (ku flag : bool) (kv : list (pyval * pyval)) : list (pyval * pyval) :=
+    if ku && (c_additional c || negb flag) then filter (fun p => negb (is_field_key c (fst p))) kv else [].
+
+  Lemma src_extra_keys_list (R : recs) cn (c : classdef) kv ku (flag : bool) :
     h (s2p "TypedPyDefaults") (s2p "ignore_invalid_additional_properties_in_deserialization") = Some (PBool flag) ->
     match h cn (s2p "_constants") with None | Some (PDict []) | Some (PList []) => true | _ => false end = true ->
-    forallb (fun p => py_hashable (fst p)) kv = true -> keys_distinct [] kv = true ->
-    (r <- src_deserialize_structure_internal_comp_kwargs h ext R (PBool ku) (PDict (enc_fields (c_fields c)))
-                                                        (PBool (c_additional c)) (ref cn) kv ;; py_dict_of r) =
-    Ok (PDict (if ku && (c_additional c || negb flag)
-               then filter (fun p => negb (is_field_key c (fst p))) kv else [])).
+    forallb (fun p => py_hashable (fst p)) kv = true ->
+    src_deserialize_structure_internal_comp_kwargs h ext R (PBool ku) (PDict (enc_fields (c_fields c)))
+                                                   (PBool (c_additional c)) (ref cn) kv =
+    Ok (extra_keys c ku flag kv).
   Proof.
-    intros Hflag Hconst Hh Hd. unfold src_deserialize_structure_internal_comp_kwargs.
+    intros Hflag Hconst Hh. unfold src_deserialize_structure_internal_comp_kwargs.
     assert (Hstep : forall k v : pyval,
                py_hashable k = true ->
                (c0 <- py_and (py_not (py_in_dyn k (PDict (enc_fields (c_fields c)))))
@@ -1795,14 +1797,305 @@ Section Struct.
       cbn [forallb fst] in Hl. apply andb_true_iff in Hl as [Hk Hl].
       cbn [filterM filter fst]. rewrite (Hstep k v Hk). cbn [bind]. rewrite (IH Hl). cbn [bind].
       destruct (negb (is_field_key c k) && (ku && (c_additional c || negb flag))); reflexivity. }
-    rewrite (Hfil kv Hh). cbn [bind]. unfold py_dict_of.
-    rewrite (dict_build_distinct _ []).
-    - cbn [bind app]. f_equal. f_equal.
-      destruct (ku && (c_additional c || negb flag)).
-      + apply filter_ext. intros p. rewrite andb_true_r. reflexivity.
-      + clear. induction kv as [|p t IH]; [reflexivity|]. cbn [filter]. rewrite andb_false_r. exact IH.
-    - clear -Hh. induction kv as [|p t IH]; [reflexivity|]. cbn [forallb filter] in *.
-      apply andb_true_iff in Hh as [H1 H2]. destruct (negb _ && _); [cbn [forallb]; rewrite H1|]; exact (IH H2).
-    - apply (keys_distinct_filter _ kv [] []); [intros k Hk; exact Hk | exact Hd].
+    rewrite (Hfil kv Hh). f_equal. unfold extra_keys.
+    destruct (ku && (c_additional c || negb flag)).
+    - apply filter_ext. intros p. rewrite andb_true_r. reflexivity.
+    - clear. induction kv as [|p t IH]; [reflexivity|]. cbn [filter]. rewrite andb_false_r. exact IH.
+  Qed.
+
+  Lemma extra_keys_dict (c : classdef) ku flag kv :
+    forallb (fun p => py_hashable (fst p)) kv = true -> keys_distinct [] kv = true ->
+    py_dict_of (extra_keys c ku flag kv) = Ok (PDict (extra_keys c ku flag kv)).
+  Proof.
+    intros Hh Hd. unfold py_dict_of. rewrite (dict_build_distinct _ []); [reflexivity| |].
+    - unfold extra_keys. destruct (ku && _); [|reflexivity].
+      clear -Hh. induction kv as [|p t IH]; [reflexivity|]. cbn [forallb filter] in *.
+      apply andb_true_iff in Hh as [H1 H2]. destruct (negb _); [cbn [forallb]; rewrite H1|]; exact (IH H2).
+    - unfold extra_keys. destruct (ku && _); [|reflexivity].
+      apply (keys_distinct_filter _ kv [] []); [intros k Hk; exact Hk | exact Hd].
+  Qed.
+
+  Theorem src_extra_keys_eq (R : recs) cn (c : classdef) kv ku (flag : bool) :
+    h (s2p "TypedPyDefaults") (s2p "ignore_invalid_additional_properties_in_deserialization") = Some (PBool flag) ->
+    match h cn (s2p "_constants") with None | Some (PDict []) | Some (PList []) => true | _ => false end = true ->
+    forallb (fun p => py_hashable (fst p)) kv = true -> keys_distinct [] kv = true ->
+    (r <- src_deserialize_structure_internal_comp_kwargs h ext R (PBool ku) (PDict (enc_fields (c_fields c)))
+                                                        (PBool (c_additional c)) (ref cn) kv ;; py_dict_of r) =
+    Ok (PDict (if ku && (c_additional c || negb flag)
+               then filter (fun p => negb (is_field_key c (fst p))) kv else [])).
+  Proof.
+    intros Hflag Hconst Hh Hd. rewrite (src_extra_keys_list R cn c kv ku flag Hflag Hconst Hh). cbn [bind].
+    exact (extra_keys_dict c ku flag kv Hh Hd).
+  Qed.
+
+  (* ------------------------------------------------------------------ deserialize_structure_internal, one class level *)
+  Variable fl : dflags.
+
+  (* the model's deser_struct (S n), with the nested levels as [rec] *)
+  Definition struct_step (ku : bool) (cn : pystr) (j : pyval) : res pyval :=
+    match find_class e cn with
+    | None => Raise Unmodelled
+    | Some c =>
+        match j with
+        | PDict kv =>
+            let extras :=
+                if ku && (c_additional c || negb (df_ignore_invalid fl))
+                then filter (fun p => negb (is_field_key c (fst p))) kv else [] in
+            kw <- deser_fields re_match e ens rec ku (c_ignore_none c) (c_fields c) kv false ;;
+            match str_keys extras with
+            | Some ex => construct re_match e c (ex ++ kw)
+            | None => Raise TypeError
+            end
+        | _ =>
+            match (if df_compact fl then compact_eligible c else None) with
+            | Some fd =>
+                w <- deser_val re_match e ens rec true (c_ignore_none c) (fd_field fd) j ;;
+                construct re_match e c [(fd_name fd, w)]
+            | None => Raise TypeError
+            end
+        end
+    end.
+
+  (* how a class description is seen as the class object [ref cn] and the two configuration objects *)
+  Definition class_dict_py (c : classdef) : list (pyval * pyval) :=
+    [(PStr (s2p "_additional_properties"), PBool (c_additional c));
+     (PStr (s2p "_required"), PList (map PStr (c_required c)))].
+
+  Record heap_models (cn : pystr) (c : classdef) : Prop := {
+    hm_not_versioned : h cn (issubclass_attr (s2p "Versioned")) = None;
+    hm_fields : h cn (s2p "get_all_fields_by_name()") = Some (PDict (enc_fields (c_fields c)));
+    hm_dict : h cn (s2p "__dict__") = Some (PDict (class_dict_py c));
+    hm_ignore_none : match h cn (s2p "_ignore_none") with Some v => v | None => PBool false end = PBool (c_ignore_none c);
+    hm_aggr : h cn (s2p "get_aggregated_deserialization_mapper()") = Some (PList []);
+    hm_constants : h cn (s2p "_constants") = Some (PDict []);
+    hm_eu : h cn (s2p "_enable_undefined_value") = None;
+    hm_field_attr : forall fd, In fd (c_fields c) -> h cn (fd_name fd) = Some (fld_py (fd_field fd));
+    hm_ff : h (s2p "Structure") (s2p "failing_fast()") = Some (PBool true);
+    hm_apd : exists v, h (s2p "TypedPyDefaults") (s2p "additional_properties_default") = Some v;
+    hm_compact : h (s2p "TypedPyDefaults") (s2p "compact_deserialization_default") = Some (PBool (df_compact fl));
+    hm_ignore_invalid : h (s2p "TypedPyDefaults") (s2p "ignore_invalid_additional_properties_in_deserialization") =
+                        Some (PBool (df_ignore_invalid fl)) }.
+
+  (* the untranslated callees of deserialize_structure_internal, in the configuration the model covers:
+       aggregate_deserialization_mappers(cls, mapper, False) is the class's no-op mapper,
+       cls( **kwargs ) / cls(value) is the model's constructor *)
+  Record ext_class_agrees (cn : pystr) (c : classdef) (m : list (pyval * pyval)) : Prop := {
+    xc_aggregate : forall mp, ext (s2p "aggregate_deserialization_mappers") [ref cn; mp; PBool false] [] = Ok (PDict m);
+    xc_noop : noop_on m (c_fields c) = true;
+    xc_call_kw : forall kw, ext call_name [ref cn] kw = construct re_match e c kw;
+    xc_call_pos : forall fd w, c_fields c = [fd] -> ext call_name [ref cn; w] [] = construct re_match e c [(fd_name fd, w)] }.
+
+  (* the entry points deserialize_structure_internal calls: the field-level knot and construct_fields_map over it *)
+  Definition struct_recs (fuel : nat) : recs :=
+    let Fld := F h ext rec fuel in
+    {| r_deserialize_list_like := r_deserialize_list_like Fld;
+       r_deserialize_array := r_deserialize_array Fld;
+       r_deserialize_deque := r_deserialize_deque Fld;
+       r_deserialize_tuple := r_deserialize_tuple Fld;
+       r_deserialize_set := r_deserialize_set Fld;
+       r_deserialize_multifield_wrapper := r_deserialize_multifield_wrapper Fld;
+       r_deserialize_map := r_deserialize_map Fld;
+       r_deserialize_single_field := r_deserialize_single_field Fld;
+       r_construct_fields_map := src_construct_fields_map h ext Fld;
+       r_deserialize_structure_internal := dsi_of rec |}.
+
+  (* the documents covered at this level *)
+  Definition struct_covered (ku : bool) (c : classdef) (j : pyval) : bool :=
+    match j with
+    | PDict kv => forallb (fun p => py_hashable (fst p)) kv && keys_distinct [] kv &&
+                  fields_covered ku (c_fields c) kv
+    | _ => match c_fields c with
+           | [fd] => doc_ok j && order_ok re_match e ens rec true (fd_field fd) j
+           | _ => true
+           end
+    end.
+
+  Lemma obj_issubclass_ref n ks :
+    obj_issubclass h (ref n) ks =
+    Ok (existsb (fun k => match h n (issubclass_attr k) with Some b => py_truthy b | None => false end) ks).
+  Proof. reflexivity. Qed.
+
+  Lemma deser_fields_nodup rec' ku ign kv : forall fds had kw,
+    NoDup (map fd_name fds) ->
+    deser_fields re_match e ens rec' ku ign fds kv had = Ok kw -> NoDup (map fst kw).
+  Proof.
+    induction fds as [|fd t IH]; intros had kw Hnd H.
+    - cbn [deser_fields] in H. destruct had; [discriminate H|]. inversion H; subst. constructor.
+    - inversion Hnd as [|n0 l0 Hnotin Hnd']; subst. cbn [deser_fields] in H.
+      destruct (dict_get kv (PStr (fd_name fd))) as [v|]; [|exact (IH _ _ Hnd' H)].
+      destruct v; try exact (IH _ _ Hnd' H);
+        (destruct (deser_val re_match e ens rec' ku ign (fd_field fd) _) as [w|x];
+         [ destruct (deser_fields re_match e ens rec' ku ign t kv had) as [rest|] eqn:E; [|discriminate H];
+           cbn [bind] in H; inversion H; subst; cbn [map fst]; constructor;
+           [ intro Hin; apply Hnotin; exact (deser_fields_names rec' ku ign kv _ _ _ E _ Hin) | exact (IH _ _ Hnd' E) ]
+         | destruct (negb _ && is_te_ve x); [exact (IH _ _ Hnd' H) | discriminate H] ]).
+  Qed.
+
+  (* kwargs.update(fields map): the extra keys are not field names, the field names are pairwise different *)
+  Lemma update_append (c : classdef) : forall kw extras,
+    forallb (fun p => negb (is_field_key c (fst p))) extras = true ->
+    (forall n, In n (map fst kw) -> In n (map fd_name (c_fields c))) ->
+    NoDup (map fst kw) ->
+    fold_left (fun acc p => dict_set acc (fst p) (snd p)) (enc_kw kw) extras = extras ++ enc_kw kw.
+  Proof.
+    assert (Hgen : forall kw acc,
+               (forall n, In n (map fst kw) -> key_absent acc n = true) -> NoDup (map fst kw) ->
+               fold_left (fun acc p => dict_set acc (fst p) (snd p)) (enc_kw kw) acc = acc ++ enc_kw kw).
+    { induction kw as [|[n w] t IH]; intros acc Hab Hnd; [cbn; rewrite app_nil_r; reflexivity|].
+      inversion Hnd as [|n0 l0 Hnotin Hnd']; subst.
+      cbn [enc_kw map fold_left fst snd]. rewrite (key_absent_fresh acc n w (Hab n (or_introl eq_refl))).
+      fold (enc_kw t). rewrite IH; [rewrite <- app_assoc; reflexivity | | exact Hnd'].
+      intros n' Hin'. pose proof (Hab n' (or_intror Hin')) as Hk. unfold key_absent in *.
+      rewrite map_app, forallb_app. rewrite Hk. cbn [map fst forallb py_eq andb].
+      destruct (pystr_eqb n n') eqn:E; [|reflexivity]. apply pystr_eqb_spec in E. subst. contradiction. }
+    intros kw extras Hex Hnames Hnd. apply Hgen; [|exact Hnd].
+    intros n Hin. specialize (Hnames n Hin). unfold key_absent. apply forallb_forall. intros k Hk.
+    apply in_map_iff in Hk as [[k' v'] [Hk1 Hk2]]. cbn [fst] in Hk1. subst k'.
+    rewrite forallb_forall in Hex. specialize (Hex _ Hk2). cbn [fst] in Hex.
+    destruct k; try reflexivity. cbn [py_eq]. cbn [is_field_key] in Hex.
+    destruct (pystr_eqb s n) eqn:E; [|reflexivity]. apply pystr_eqb_spec in E. subst s.
+    exfalso. unfold Instance.field_names, str_in in Hex. apply negb_true_iff in Hex.
+    assert (Ht : existsb (pystr_eqb n) (map fd_name (c_fields c)) = true).
+    { apply existsb_exists. exists n. split; [exact Hnames | apply pystr_eqb_refl]. }
+    rewrite Ht in Hex. discriminate Hex.
+  Qed.
+
+  Lemma kw_of_pairs_app : forall extras kw,
+    kw_of_pairs (extras ++ enc_kw kw) =
+    match str_keys extras with Some ex => Ok (ex ++ kw) | None => Raise TypeError end.
+  Proof.
+    induction extras as [|[k v] t IH]; intro kw.
+    - cbn [app str_keys]. induction kw as [|[n w] kw IHk]; [reflexivity|].
+      cbn [enc_kw map kw_of_pairs fst snd]. fold (enc_kw kw). rewrite IHk. reflexivity.
+    - cbn [app kw_of_pairs str_keys]. destruct k; try reflexivity. rewrite IH.
+      destruct (str_keys t); reflexivity.
+  Qed.
+
+  Lemma len1 (x : pyval) : py_eq (PNum (NInt (lenZ' [x]))) (zint 1) = true.
+  Proof. reflexivity. Qed.
+
+  Lemma len2 (x y : pyval) t : py_eq (PNum (NInt (lenZ' (x :: y :: t)))) (zint 1) = false.
+  Proof.
+    cbn [zint py_eq as_num]. rewrite num_eqb_int. unfold lenZ'. cbn [length]. apply Z.eqb_neq. lia.
+  Qed.
+
+  Lemma req_eq req n :
+    py_eq (PList (map PStr req)) (PList [PStr n]) = match req with [r] => pystr_eqb r n | _ => false end.
+  Proof.
+    destruct req as [|r [|r2 t]]; cbn [map py_eq]; [reflexivity | apply andb_true_r | apply andb_false_r].
+  Qed.
+
+  Lemma py_call_ref n args kw : py_call ext (ref n) args kw = ext call_name (ref n :: args) kw.
+  Proof. reflexivity. Qed.
+
+  Lemma not_dict_match {A} j (X : list (pyval * pyval) -> A) (Y : A) :
+    py_isinstance j [K_dict] = false -> match j with PDict kv => X kv | _ => Y end = Y.
+  Proof. destruct j; cbn; intro H; try reflexivity; discriminate H. Qed.
+
+  Lemma extra_keys_nonfield (c : classdef) ku flag kv :
+    forallb (fun p => negb (is_field_key c (fst p))) (extra_keys c ku flag kv) = true.
+  Proof.
+    unfold extra_keys. destruct (ku && _); [|reflexivity].
+    induction kv as [|p t IH]; [reflexivity|]. cbn [filter]. destruct (negb (is_field_key c (fst p))) eqn:E; [|exact IH].
+    cbn [forallb]. rewrite E. exact IH.
+  Qed.
+
+  (* `if keep_undefined: for m in cls.get_aggregated_deserialization_mapper(): ...; if (camel_case_convert or
+     isinstance(mapper, mappers)) and not ...: keep_undefined = False` leaves keep_undefined as it is when no mapper
+     is declared and the aggregated mapper is a dict *)
+  Lemma ku_prefix (R : recs) cn m (K : pyval -> res pyval) ku :
+    h cn (s2p "get_aggregated_deserialization_mapper()") = Some (PList []) ->
+    (c0 <- Ok (py_truthy (PBool ku)) ;;
+     if c0 then (t47 <- fld_getattr h (ref cn) (s2p "get_aggregated_deserialization_mapper()") ;;
+                 t48 <- py_iter t47 ;;
+                 src_deserialize_structure_internal_loop1 h ext R (PDict m)
+                   (fun v_ku => c1 <- py_and (py_or (Ok (py_truthy (PBool false)))
+                                                      (fun _ => cls_isinstance tbl (PDict m) [s2p "mappers"]))
+                                              (fun _ => py_not (t53 <- fld_getattr_def h (ref cn) (s2p "_additional_properties") (PBool false) ;;
+                                                                Ok (py_truthy t53))) ;;
+                                if c1 then K (PBool false) else K v_ku) t48 (PBool ku))
+     else K (PBool ku)) = K (PBool ku).
+  Proof.
+    intro Ha. destruct ku; cbn [py_truthy bind]; [|reflexivity].
+    rewrite ref_getattr', Ha. reflexivity.
+  Qed.
+
+  Theorem src_structure_internal_step fuel cn c m j name usm mapper ku ssv :
+    find_class e cn = Some c -> heap_models cn c -> ext_class_agrees cn c m ->
+    NoDup (map fd_name (c_fields c)) ->
+    struct_covered ku c j = true ->
+    (3 * fields_depth (c_fields c) <= fuel)%nat ->
+    src_deserialize_structure_internal h ext (struct_recs fuel) (ref cn) j name usm mapper (PBool ku) (PBool false)
+                                       (PBool false) ssv =
+    struct_step ku cn j.
+  Proof.
+    intros Hfind HM HX Hnd Hcov Hfuel. destruct HM, HX. destruct hm_apd0 as [apd Hapd].
+    unfold src_deserialize_structure_internal, struct_step. rewrite Hfind.
+    rewrite obj_issubclass_ref. cbn [existsb]. rewrite hm_not_versioned0. cbn [orb bind py_truthy py_and].
+    rewrite xc_aggregate0. cbn [bind].
+    match goal with
+    | |- (if ku then _ else ?X) = _ =>
+        let K := eval pattern (PBool ku) in X in
+        match K with
+        | ?f _ => transitivity (f (PBool ku)); [exact (ku_prefix (struct_recs fuel) cn m f ku hm_aggr0) | cbv beta]
+        end
+    end.
+    rewrite ref_getattr_def', hm_ignore_none0. cbn [bind].
+    rewrite ref_getattr', hm_fields0. cbn [bind]. rewrite ref_getattr', hm_dict0. cbn [bind].
+    rewrite ref_getattr', Hapd. cbn [bind]. rewrite meth_get2 by reflexivity.
+    change (dict_get (class_dict_py c) (PStr (s2p "_additional_properties"))) with (Some (PBool (c_additional c))).
+    cbn [bind].
+    destruct (py_isinstance j [K_dict]) eqn:Hisd.
+    - (* a dict *)
+      destruct j; try discriminate Hisd. cbn [py_not bind negb py_dict_items].
+      cbn [struct_covered] in Hcov. apply andb_true_iff in Hcov as [Hcov Hfc]. apply andb_true_iff in Hcov as [Hh Hd].
+      rewrite (src_extra_keys_list (struct_recs fuel) cn c kv ku (df_ignore_invalid fl) hm_ignore_invalid0)
+        by (try rewrite hm_constants0; try reflexivity; exact Hh).
+      cbn [bind]. rewrite (extra_keys_dict c ku (df_ignore_invalid fl) kv Hh Hd). cbn [bind].
+      rewrite ref_getattr_def', hm_eu0. cbn [bind].
+      change (r_construct_fields_map (struct_recs fuel)) with (src_construct_fields_map h ext (F h ext rec fuel)).
+      rewrite (src_construct_fields_map_eq cn (c_fields c) m kv ku (c_ignore_none c) usm (PBool false) fuel);
+        [ | unfold cfm_heap_ok; rewrite hm_constants0, hm_eu0, hm_ff0; reflexivity | exact xc_noop0 | exact Hnd
+          | exact Hfc | exact Hfuel ].
+      fold (extra_keys c ku (df_ignore_invalid fl) kv).
+      destruct (deser_fields re_match e ens rec ku (c_ignore_none c) (c_fields c) kv false) as [kw|x] eqn:Edf; [|reflexivity].
+      cbn [bind py_dict_update].
+      rewrite (update_append c kw _ (extra_keys_nonfield c ku (df_ignore_invalid fl) kv)
+                             (deser_fields_names rec ku (c_ignore_none c) kv _ _ _ Edf)
+                             (deser_fields_nodup rec ku (c_ignore_none c) kv _ _ _ Hnd Edf)).
+      cbn [bind py_star_kwargs]. rewrite kw_of_pairs_app.
+      destruct (str_keys (extra_keys c ku (df_ignore_invalid fl) kv)) as [ex|]; [|reflexivity].
+      cbn [bind]. rewrite py_call_ref, xc_call_kw0. destruct (construct re_match e c (ex ++ kw)); reflexivity.
+    - (* not a dict: the compact form, for a class that wraps a single required field *)
+      rewrite (not_dict_match j _ _ Hisd). cbn [py_not bind negb py_dict_keys py_dict_items].
+      assert (Hlist : forall l, py_call ext (bref (s2p "list")) [PList l] [] = Ok (PList l)) by reflexivity.
+      rewrite Hlist. cbn [bind]. rewrite meth_get2 by reflexivity.
+      change (dict_get (class_dict_py c) (PStr (s2p "_required"))) with (Some (PList (map PStr (c_required c)))).
+      cbn [bind]. rewrite ref_getattr', hm_compact0.
+      unfold compact_eligible.
+      destruct (c_fields c) as [|fd [|fd2 fds]] eqn:Efields.
+      + destruct (df_compact fl); reflexivity.
+      + cbn [enc_fields map fst]. cbn [py_len bind py_eqv py_and]. rewrite len1. cbn [bind]. rewrite req_eq.
+        cbn [py_is_false py_truthy bind].
+        destruct (c_required c) as [|r [|r2 req]]; cbn [bind]; try (destruct (df_compact fl); reflexivity).
+        destruct (pystr_eqb r (fd_name fd)) eqn:Er; cbn [bind andb]; [|destruct (df_compact fl); reflexivity].
+        destruct (c_additional c); cbn [bind negb]; [destruct (df_compact fl); reflexivity|].
+        destruct (df_compact fl); cbn [bind]; [|reflexivity].
+        cbn [py_subscript zint seq_index]. 
+        change (seq_index [PStr (fd_name fd)] 0) with (@Ok pyval (PStr (fd_name fd))). cbn [bind fld_getattr_dyn_def].
+        rewrite ref_getattr_def', (hm_field_attr0 fd) by (left; reflexivity). cbn [bind].
+        change (r_deserialize_single_field (struct_recs fuel)) with (r_deserialize_single_field (F h ext rec fuel)).
+        unfold struct_covered in Hcov. rewrite Efields in Hcov.
+        assert (Hcov' : doc_ok j && order_ok re_match e ens rec true (fd_field fd) j = true).
+        { destruct j; try exact Hcov. cbn [py_isinstance existsb isinstance1 orb] in Hisd. discriminate Hisd. }
+        apply andb_true_iff in Hcov' as [Hdj Hoj].
+        rewrite (src_single_field_eq re_match e ens h ext rec Hrec Hext (fd_field fd) fuel true (c_ignore_none c) j);
+          [ | unfold fields_depth in Hfuel; cbn [map fdepths fold_right] in Hfuel; lia
+            | exact Hdj | exact Hoj ].
+        destruct (deser_val re_match e ens rec true (c_ignore_none c) (fd_field fd) j) as [w|x]; [|reflexivity].
+        cbn [bind]. rewrite py_call_ref, (xc_call_pos0 fd w eq_refl).
+        destruct (construct re_match e c [(fd_name fd, w)]); reflexivity.
+      + cbn [enc_fields map fst]. cbn [py_len bind py_eqv py_and]. rewrite len2. cbn [bind].
+        destruct (df_compact fl); reflexivity.
   Qed.
 End Struct.
